@@ -124,7 +124,9 @@ func (s *LocalBackend) Metrics() []prometheus.Collector {
 }
 
 func compareFile(f *os.File, data []byte) error {
-	b := make([]byte, min(len(data), 16384))
+	// The buffer must never be empty: a zero-length Read returns (0, nil)
+	// forever, without ever reporting io.EOF.
+	b := make([]byte, max(1, min(len(data), 16384)))
 	for {
 		n, err := f.Read(b)
 		if err != nil && err != io.EOF {
